@@ -25,11 +25,12 @@ ClassOk(nd, ci, c) ==
 LitOk(nd, ci, c) == IF ci \/ nd.fold THEN FoldEq(c, nd.r) ELSE c = nd.r
 
 \* keep first occurrences
-RECURSIVE DedupAcc(_, _, _)
-DedupAcc(q, k, acc) ==
+RECURSIVE DedupAcc(_, _, _, _)
+DedupAcc(q, k, acc, seen) ==
   IF k > Len(q) THEN acc
-  ELSE DedupAcc(q, k + 1, IF \E j \in 1..Len(acc) : acc[j] = q[k] THEN acc ELSE Append(acc, q[k]))
-Dedup(q) == IF Len(q) <= 1 THEN q ELSE DedupAcc(q, 1, <<>>)
+  ELSE IF q[k] \in seen THEN DedupAcc(q, k + 1, acc, seen)
+  ELSE DedupAcc(q, k + 1, Append(acc, q[k]), seen \cup {q[k]})
+Dedup(q) == IF Len(q) <= 1 THEN q ELSE DedupAcc(q, 1, <<>>, {})
 
 Node(op) == [op |-> op, r |-> 0, fold |-> FALSE, cls |-> <<>>, neg |-> FALSE, min |-> 0, max |-> 0,
              greedy |-> TRUE, sub |-> <<>>]
@@ -65,6 +66,26 @@ PlusFrom(tx, g, i, acc) ==
 
 CatTab(ta, tb, P) == Tab([i \in P |-> Dedup(FlattenSeq([k \in 1..Len(ta[i]) |-> tb[ta[i][k]]]))])
 
+\* single-character matchers: repeats have a closed form (run lengths), which keeps
+\* x*, x+ linear per position for the common .*, a+, [ab]+, \\s+ ...
+IsCharOp(nd) == nd.op \in {"lit", "cc", "any", "anynl"}
+CharOk(nd, ci, c) == CASE nd.op = "lit" -> LitOk(nd, ci, c)
+                       [] nd.op = "cc" -> ClassOk(nd, ci, c)
+                       [] nd.op = "any" -> TRUE
+                       [] nd.op = "anynl" -> c # 10
+RECURSIVE RunFrom(_, _, _, _, _)
+RunFrom(nd, s, ci, i, acc) ==      \* acc: function (i+1)..Len(s) -> run length
+  LET r == IF i < Len(s) /\ CharOk(nd, ci, s[i + 1]) THEN 1 + acc[i + 1] ELSE 0
+      acc2 == (i :> r) @@ acc
+  IN IF i = 0 THEN acc2 ELSE RunFrom(nd, s, ci, i - 1, acc2)
+CharRepeat(nd, s, ci, greedy, zeroOk) ==
+  LET n == Len(s)
+      run == RunFrom(nd, s, ci, n, <<>>)
+  IN Tab([i \in 0..n |->
+        LET m == run[i] IN
+        IF greedy THEN [k \in 1..(IF zeroOk THEN m + 1 ELSE m) |-> i + m + 1 - k]
+        ELSE [k \in 1..(IF zeroOk THEN m + 1 ELSE m) |-> IF zeroOk THEN i + k - 1 ELSE i + k]])
+
 RECURSIVE T(_, _, _)
 RECURSIVE CatAll(_, _, _, _, _)
 CatAll(subs, k, s, ci, acc) ==
@@ -99,9 +120,11 @@ T(nd, s, ci) ==
                              ELSE AltAll(nd.sub, 2, s, ci, T(nd.sub[1], s, ci))
        [] nd.op = "quest" -> LET tx == T(nd.sub[1], s, ci)
                              IN Tab([i \in P |-> IF nd.greedy THEN Dedup(tx[i] \o <<i>>) ELSE Dedup(<<i>> \o tx[i])])
-       [] nd.op = "plus"  -> PlusFrom(T(nd.sub[1], s, ci), nd.greedy, n, <<>>)
-       [] nd.op = "star"  -> LET tp == PlusFrom(T(nd.sub[1], s, ci), nd.greedy, n, <<>>)
-                             IN Tab([i \in P |-> IF nd.greedy THEN Dedup(tp[i] \o <<i>>) ELSE Dedup(<<i>> \o tp[i])])
+       [] nd.op = "plus"  -> IF IsCharOp(nd.sub[1]) THEN CharRepeat(nd.sub[1], s, ci, nd.greedy, FALSE)
+                             ELSE PlusFrom(T(nd.sub[1], s, ci), nd.greedy, n, <<>>)
+       [] nd.op = "star"  -> IF IsCharOp(nd.sub[1]) THEN CharRepeat(nd.sub[1], s, ci, nd.greedy, TRUE)
+                             ELSE LET tp == PlusFrom(T(nd.sub[1], s, ci), nd.greedy, n, <<>>)
+                                  IN Tab([i \in P |-> IF nd.greedy THEN Dedup(tp[i] \o <<i>>) ELSE Dedup(<<i>> \o tp[i])])
        [] nd.op = "rep"   -> T(ExpandRep(nd), s, ci)
 
 \* does the expression match somewhere (an empty match counts)
